@@ -97,6 +97,39 @@ Section P.
     rewrite Hfin. destruct s as [v w p q c]. unfold Analyses.set_ae in *. cbn [s_v s_w s_p s_q s_c] in *. f_equal. exact Hid.
   Qed.
 
+  (* ---- what stability_derivatives differences: four states that differ from the base state in exactly one of alpha, beta ---- *)
+  Definition same_rest (s s' : ast R) : Prop := s_w s' = s_w s /\ s_p s' = s_p s /\ s_q s' = s_q s /\ s_c s' = s_c s.
+  Theorem stability_table s dth : qn2 (s_q s) = 1 ->
+    let '(a0, b0, V0) := enc (vbody s) in
+    okA (a0 + dth) b0 V0 -> okA (a0 - dth) b0 V0 -> okA a0 (b0 + dth) V0 -> okA a0 (b0 - dth) V0 ->
+    exists s1 s2 s3 s4,
+      get_ae s1 = (a0 + dth, b0, V0) /\ get_ae s2 = (a0 - dth, b0, V0) /\
+      get_ae s3 = (a0, b0 + dth, V0) /\ get_ae s4 = (a0, b0 - dth, V0) /\
+      same_rest s s1 /\ same_rest s s2 /\ same_rest s s3 /\ same_rest s s4 /\
+      fst (stability fcos fsin ftan fatan fasin fatan2 d2r r2d W F s dth) =
+        (cdiff (1 / (2 * (dth * d2r))) (F s1) (F s2), cdiff (1 / (2 * (dth * d2r))) (F s3) (F s4)).
+  Proof.
+    intros Hq. unfold stability. rewrite get_ae_enc. destruct (enc (vbody s)) as [[a0 b0] V0] eqn:E.
+    intros H1 H2 H3 H4. cbv zeta. cbn [fst]. change (@nadd R RNum) with Rplus. change (@nsub R RNum) with Rminus.
+    set (s1 := set_ae s (Some (a0 + dth)) None None).
+    assert (E1 : get_ae s1 = (a0 + dth, b0, V0)).
+    { unfold s1. pose proof (set_ae_defaults s (Some (a0 + dth)) None None) as D. rewrite get_ae_enc, E in D. rewrite D.
+      rewrite get_ae_enc, vbody_set by assumption. apply HA; assumption. }
+    set (s2 := set_ae s1 (Some (a0 - dth)) None None).
+    assert (E2 : get_ae s2 = (a0 - dth, b0, V0)).
+    { unfold s2. pose proof (set_ae_defaults s1 (Some (a0 - dth)) None None) as D. rewrite E1 in D. rewrite D.
+      rewrite get_ae_enc, vbody_set by assumption. apply HA; assumption. }
+    set (s3 := set_ae s2 (Some a0) (Some (b0 + dth)) None).
+    assert (E3 : get_ae s3 = (a0, b0 + dth, V0)).
+    { unfold s3. pose proof (set_ae_defaults s2 (Some a0) (Some (b0 + dth)) None) as D. rewrite E2 in D. rewrite D.
+      rewrite get_ae_enc, vbody_set by assumption. apply HA; assumption. }
+    set (s4 := set_ae s3 None (Some (b0 - dth)) None).
+    assert (E4 : get_ae s4 = (a0, b0 - dth, V0)).
+    { unfold s4. pose proof (set_ae_defaults s3 None (Some (b0 - dth)) None) as D. rewrite E3 in D. rewrite D.
+      rewrite get_ae_enc, vbody_set by assumption. apply HA; assumption. }
+    exists s1, s2, s3, s4. repeat split; try assumption; reflexivity.
+  Qed.
+
   (* ---- damping and control derivatives restore exactly what they changed ---- *)
   Theorem damping_restores s dw pp qq rr lat lon :
     snd (damping fasin fatan2 r2d W F s dw pp qq rr lat lon) = s.
